@@ -663,6 +663,15 @@ SHIM_MODULES = {
 }
 
 
+def sx_in(item, container):
+    """`item in container` where a genuine str / bytes container meets a symbolic item"""
+    if _real_isinstance(container, _real_str) and _real_isinstance(item, T.SStr):
+        return T.SStr([ord(ch) for ch in container]).__contains__(item)
+    if _real_isinstance(container, (_real_bytes, _real_bytearray)) and (V.is_byteslike(item) or _real_isinstance(item, V.SInt)) and not _real_isinstance(item, (_real_bytes, _real_bytearray, _real_int)):
+        return V.SBytes(list(container)).__contains__(item)
+    return item in container
+
+
 def sx_import(name, globals=None, locals=None, fromlist=(), level=0):
     if level == 0 and name in SHIM_MODULES:
         return SHIM_MODULES[name]
@@ -693,6 +702,7 @@ def make_builtins():
             "__sx_strmeth__": strmeth,
             "__sx_pct__": pct,
             "__sx_get__": sx_get,
+            "__sx_in__": sx_in,
             "__sx_real_int__": _real_int,
             "__sx_real_str__": _real_str,
             "__sx_real_bytes__": _real_bytes,
